@@ -29,6 +29,12 @@ CHECKS = {
             "compares with a comparator that does not use SamlBase.__eq__; the second serialisation must be byte-identical and a stdlib parse "
             "of the text must show children in table order and the foreign content present.",
             PURE, "3/C12"),
+    "C13": ("exploration", "table-driven constraint violation in isolation, oracle on valid_instance() in both directions",
+            "For every element class builds the minimal instance satisfying all declared constraints and then violates each declared "
+            "constraint in isolation (every required attribute missing/empty, every explicit occurrence bound, every attribute/text of a "
+            "checked simple type with a non-conforming value), at the root and nested below valid parents; violated must raise, satisfied "
+            "must return True (exhaustive over the table entries, sampled over parents).",
+            PURE, "3/C13"),
     "C18": ("exploration", "reference-model monitor over operation histories (bounded-exhaustive + random), invariants after every step",
             "Replays every operation history up to a bounded depth over 2 users x 2 SPs (abstract-state pruned), long random histories on "
             "dict- and shelve-backed IdentDB, hostile field contents and the adversarial user-id class against a dictionary model; after each "
